@@ -62,6 +62,8 @@ def abi_tag(a: dict) -> str:
         return a["kind"]
     if a["impl"] == "pp":
         return f"pypy{a['major']}{a['minor']}_pp73"
+    if a["impl"] == "pt":
+        return f"pyston{a['major']}{a['minor']}_23"
     return f"cp{a['major']}{a['minor']}{a['flag']}"
 
 
@@ -70,7 +72,7 @@ def build_envspec(rp_shape: dict, setting: dict, grid: list[str], plat=None):
     rp = spec_iface.build(rp_shape, grid)
     impl = None
     if setting["impl"]:
-        impl = Implementation({"cp": "cpython", "pp": "pypy"}[setting["impl"]], bool(setting["ft"] == 1))
+        impl = Implementation({"cp": "cpython", "pp": "pypy", "pt": "pyston"}[setting["impl"]], bool(setting["ft"] == 1))
     return EnvSpec(rp, plat, impl)
 
 
